@@ -134,6 +134,7 @@ def step (st : St) (ws : List String) : St × String :=
         added := natList (kv rest "add")
         fetched := pairList (kv rest "fet")
         items := ((kv rest "items").toNat?).getD 0
+        writeItems := ((kv rest "witems").toNat?).getD (((kv rest "items").toNat?).getD 0)
         tracked := kv rest "tracked" != "0"
         delta := ((kv rest "delta").toInt?).getD 0
         values := natList (kv rest "vals")
